@@ -164,3 +164,14 @@ def feq(a, b, rel=1e-9, ab=1e-12):
     except TypeError:
         return False
     return abs(a - b) <= max(ab, rel * max(abs(a), abs(b)))
+
+
+def quiet_print(*a, **k):
+    """stands in for `print` in the library modules: progress chatter to the terminal is dropped, anything printed
+    *to a file* (a maintainer may well write log lines with print(..., file=handle)) goes where it was sent"""
+    import builtins
+    import sys
+    f = k.get("file")
+    if f is None or f is sys.stdout or f is sys.stderr or f is sys.__stdout__ or f is sys.__stderr__:
+        return None
+    return builtins.print(*a, **k)
